@@ -169,6 +169,43 @@ def executor_context(verif, exec_src):
     return set(re.findall(r'[A-Za-z_][A-Za-z0-9_]*', text_all)), headers
 
 
+def const_readers(repo, headers, defs, idents):
+    """functions declared __attribute__((const)) although they take a pointer (a const function may not read memory through its
+    arguments: the compiler is then free to reuse an earlier result after the caller has changed the data in place).
+    Found on the preprocessed declarations of the unit's headers; -> list of names the executor uses"""
+    src = '\n'.join('#include "a/%s"' % h for h in headers) + '\n'
+    # (C mode: no extern "C" { } around the declarations)
+    cmd = ['clang', '-std=gnu11', '-x', 'c', '-E', '-P', '-w', '-I', os.path.join(repo, 'include')] + [d for d in defs if d.startswith('-D') or d.startswith('-U')] + ['-']
+    r = subprocess.run(cmd, input=src, stdout=subprocess.PIPE, stderr=subprocess.PIPE, text=True)
+    if r.returncode:
+        raise RuntimeError('preprocessing failed: ' + r.stderr[-2000:])
+    text = r.stdout
+    # drop function bodies / aggregate bodies: only declarators matter
+    out, depth = [], 0
+    for ch in text:
+        if ch == '{':
+            depth += 1
+            if depth == 1:
+                out.append(';')
+            continue
+        if ch == '}':
+            depth -= 1
+            if depth == 0:
+                out.append(';')
+            continue
+        if depth == 0:
+            out.append(ch)
+    found = []
+    for piece in ''.join(out).split(';'):
+        if not re.search(r'__attribute__\s*\(\(\s*(?:[^()]*,\s*)?(?:__const__|const)\b', piece):
+            continue
+        flat = ' '.join(piece.split())
+        m = re.search(r'\b(a_\w+)\s*\(((?:[^()]|\([^()]*\))*)\)\s*$', flat)
+        if m and '*' in m.group(2) and m.group(1) in idents:
+            found.append('%s (declared as a function): attribute const on a function that takes a pointer - the result may be reused by the compiler after the caller changed the pointed-to data; declaration: %s' % (m.group(1), flat[-240:]))
+    return found
+
+
 def baseline_path(verif):
     return os.path.join(verif, 'exec', 'once_baseline.json')
 
@@ -186,7 +223,7 @@ def scan_unit(verif, repo, unit):
     if not names or not headers:
         return [], 0, 0
     exp = expansions(repo, names, headers, list(unit.defs) + list(unit.exec_defs))
-    findings = []
+    findings = const_readers(repo, headers, list(unit.defs) + list(unit.exec_defs), idents)
     for n, e in sorted(exp.items()):
         counts = analyse(e, names[n])
         if counts is None:
